@@ -209,7 +209,7 @@ fn hex(b: &[u8]) -> String {
 
 fn main() {
     let ctx = Ctx::from_env("C06");
-    ctx.rule("universes: (a) a valid file per mode x format version {14,7,5} under every single line-level edit (delete, duplicate, swap two lines, truncate at every byte, splice each of 18 corner tokens incl. NaN/inf/1e999/limit+1 into every numeric field) and every ordered pair of core edits (delete, duplicate, splice 5 corners) [thorough: every pair of all edits on v14]; (b) every byte prefix of those files in UTF-8, UTF-8+BOM, UTF-16LE, UTF-16BE; (c) every single-byte substitution from {00,80,C3,FF,'[',','} at every offset; (d) all byte strings of length <= 2 and all strings of length <= 5 over a 10-symbol structural alphabet, raw and inside [HitObjects] / [TimingPoints]; (e) all permutations of <= 6 hit-object lines with duplicate and out-of-order times, hit sound = f(x). Oracle: worker survives (no panic / abort / hang), Ok or io::Error; on Ok the map is well-formed (order, one sound per object and the right one, control points strictly ordered, all floats finite and inside the documented clamps), from_bytes == from_str == from_path; non-trivial = decoded Ok");
+    ctx.rule("universes: (a) a valid file per mode x format version {14,7,5} under every single line-level edit (delete, duplicate, swap two lines, truncate at every byte, splice each of 18 corner tokens incl. NaN/inf/1e999/limit+1 into every numeric field) and every ordered pair of core edits (delete, duplicate, splice 5 corners) [thorough: every pair of all edits on v14]; (b) every byte prefix of those files in UTF-8, UTF-8+BOM, UTF-16LE, UTF-16BE; (c) every single-byte substitution from {00,80,C3,FF,'[',','} at every offset; (d) all byte strings of length <= 2 and all strings of length <= 5 over a 10-symbol structural alphabet, raw and inside [HitObjects] / [TimingPoints]; (e) all permutations of <= 6 hit-object lines with duplicate and out-of-order times, hit sound = f(x); (f) all permutations of <= 6 control-point lines (uninherited, inherited, kiai) with repeated and out-of-order times. Oracle: worker survives (no panic / abort / hang), Ok or io::Error; on Ok the map is well-formed (order, one sound per object and the right one, control points strictly ordered, all floats finite and inside the documented clamps), from_bytes == from_str == from_path; non-trivial = decoded Ok");
     ctx.assume("from_path is compared on every 16th case of (a)-(d) and on every case of (e) (temp file under /verif/target)");
 
     let quick = ctx.quick();
@@ -343,6 +343,24 @@ fn main() {
                     }
                 }
                 oracle(l, t.as_bytes(), true, true, &|| format!("permutation {:?}\n--- text ---\n{t}", perms[idx as usize]));
+            });
+        }
+    }
+    // (f) permutations of control-point lines: files list them in any order, with repeated times, and the three lists
+    // (timing, difficulty, effect) must come out strictly ordered whatever the order of arrival
+    let cp_lines = ["1000,400,4,2,0,60,1,0", "500,300,4,2,0,60,1,0", "1000,250,4,2,0,60,1,0", "500,-50,4,2,0,60,0,0", "1000,-200,4,2,0,60,0,1", "1500,-50,4,2,0,60,0,0"];
+    for mode in 0..4u8 {
+        for n in 2..=6 {
+            let perms = permutations(n);
+            let name = format!("f-permutations-control-points/mode{mode}/n{n}");
+            ctx.universe_isolated(&name, perms.len() as u64, 2.0, 1024, |idx, l| {
+                let mut t = format!("osu file format v14\n[General]\nMode: {mode}\n[TimingPoints]\n");
+                for &k in &perms[idx as usize] {
+                    t.push_str(cp_lines[k]);
+                    t.push('\n');
+                }
+                t.push_str("[HitObjects]\n100,100,600,1,0,0:0:0:0:\n200,100,1100,2,0,L|250:100,1,50\n300,100,1600,1,2,0:0:0:0:\n");
+                oracle(l, t.as_bytes(), true, false, &|| format!("control-point lines in order {:?}\n--- text ---\n{t}", perms[idx as usize]));
             });
         }
     }
